@@ -334,6 +334,7 @@ def main(argv=None):
     a = ap.parse_args(argv)
     pid = a.property
     seed = int(os.environ.get("VERIF_SEED", "0") or 0)
+    os.environ["VERIF_TIER"] = a.tier  # visible to the property modules' setup hooks in the workers
     sys.path.insert(0, VERIF)
     if a.replay:
         return replay_file(pid, a.replay)
